@@ -457,4 +457,106 @@ func runC07(w *mon.W) {
 			w.End()
 		}
 	}
+
+	// ---- the 10% threshold at every total: one lysine codon holds exactly a tenth of the usage, for every total
+	// 10, 20, .. 6000 (the decision is exact in integers: weight*10 > total; any arithmetic in floating point has
+	// to agree with it at every one of these points)
+	for blk := 0; blk < 60; blk++ {
+		id := fmt.Sprintf("tenth-%d", blk)
+		idx++
+		if !w.Want(id, idx) {
+			continue
+		}
+		w.Begin(id, fmt.Sprintf("totals %d..%d step 10, AAG at exactly 10%%", blk*100+10, blk*100+100))
+		for total := blk*100 + 10; total <= blk*100+100; total += 10 {
+			tbl := deepTable(1)
+			var dna, seq string
+			var err error
+			seq = strings.Repeat("AAG", total/10) + strings.Repeat("AAA", total-total/10)
+			p := mon.Try(func() {
+				tbl = tbl.OptimizeTable(seq)
+				dna, err = codon.Optimize(strings.Repeat("K", 400), tbl)
+			})
+			w.Eval(true, mon.Hash64("tenth", fmt.Sprint(total)))
+			w.Add("totals_with_a_codon_at_exactly_a_tenth", 1)
+			if p != "" || err != nil || len(dna) != 1200 {
+				w.Violation(id, fmt.Sprintf("Optimize of 400 x K on table 1 re-weighted with AAG %d, AAA %d: %s %v (length %d)", total/10, total-total/10, p, err, len(dna)), map[string]any{"total": total})
+				continue
+			}
+			for i := 0; i+3 <= len(dna); i += 3 {
+				if dna[i:i+3] != "AAA" {
+					w.Violation(id, fmt.Sprintf("residue %d of 400 x K: emitted codon %s has weight %d of %d among its synonyms (share exactly 10%%, not above)", i/3, dna[i:i+3], total/10, total), map[string]any{"total": total})
+					break
+				}
+			}
+		}
+		w.End()
+	}
+
+	// ---- proportionality by position: the first and the last residue of a protein of the usual form M...* are
+	// drawn like any other (default tables: every synonym of M, and every stop codon, equally often)
+	pdraws := w.Pick(20000, 100000)
+	pband := math.Sqrt(math.Log(2*200/1e-9) / (2 * float64(pdraws)))
+	for _, tid := range tableIDs {
+		id := fmt.Sprintf("ends-t%d", tid)
+		idx++
+		if !w.Want(id, idx) {
+			continue
+		}
+		tbl := deepTable(tid)
+		snap := snapshot(tbl)
+		elM, elS := snap.eligible("M"), snap.eligible("*")
+		if len(elM) < 2 && len(elS) < 2 {
+			continue
+		}
+		r := w.Rand(id)
+		var inner []string
+		for _, l := range snap.letters() {
+			if l != "*" && snap.total(l) > 0 {
+				inner = append(inner, l)
+			}
+		}
+		prot := "M" + inner[r.Intn(len(inner))] + inner[r.Intn(len(inner))] + inner[r.Intn(len(inner))]
+		if len(elS) > 0 {
+			prot += "*"
+		}
+		w.Begin(id, fmt.Sprintf("%d x Optimize(%q) on default table %d", pdraws, prot, tid))
+		first, last := map[string]int{}, map[string]int{}
+		bad := false
+		for i := 0; i < pdraws && !bad; i++ {
+			var dna string
+			var err error
+			if p := mon.Try(func() { dna, err = codon.Optimize(prot, tbl) }); p != "" || err != nil || len(dna) != 3*len(prot) {
+				w.Violation(id, fmt.Sprintf("Optimize(%q, default table %d): %s %v (length %d)", prot, tid, p, err, len(dna)), nil)
+				bad = true
+				break
+			}
+			first[dna[:3]]++
+			last[dna[len(dna)-3:]]++
+		}
+		w.Eval(true, mon.Hash64("ends", fmt.Sprint(tid), prot))
+		if !bad {
+			for _, side := range []struct {
+				name   string
+				el     map[string]int
+				counts map[string]int
+			}{{"first residue (M)", elM, first}, {"last residue (*)", elS, last}} {
+				if len(side.el) < 2 || (side.name[0] == 'l' && !strings.HasSuffix(prot, "*")) {
+					continue
+				}
+				sum := 0
+				for _, wt := range side.el {
+					sum += wt
+				}
+				for c, wt := range side.el {
+					w.Add("proportionality_tests_by_position", 1)
+					exp, obs := float64(wt)/float64(sum), float64(side.counts[c])/float64(pdraws)
+					if math.Abs(obs-exp) > pband {
+						w.Violation(id, fmt.Sprintf("%s of %q on default table %d: codon %s chosen with frequency %.4f over %d calls, its weight share among the eligible codons is %.4f (band +/-%.4f)", side.name, prot, tid, c, obs, pdraws, exp, pband), map[string]any{"table": tid, "protein": prot})
+					}
+				}
+			}
+		}
+		w.End()
+	}
 }
